@@ -51,6 +51,19 @@ def parse_event(o):
     return None, attrs, bulk
 
 
+def parse_event_parts(o):
+    """the same chain with the order of its parts kept: (literal origin, [("one", k, v) | ("bulk", origin)])"""
+    parts = []
+    o = peel(o)
+    while o[0] == "call" and o[1] in ("cosmwasm_std::Event::add_attribute", "cosmwasm_std::Event::add_attributes"):
+        parts.append(("one", o[2][1], o[2][2]) if o[1].endswith("add_attribute") else ("bulk", o[2][1]))
+        o = peel(o[2][0])
+    parts.reverse()
+    if o[0] == "call" and o[1] == "cosmwasm_std::Event::new":
+        return o[2][0], parts
+    return None, parts
+
+
 def check(ctx, cfg):
     r1(ctx, cfg)
     r2(ctx, cfg)
@@ -180,6 +193,7 @@ def r2(ctx, cfg):
     lit, attrs, bulk = parse_event(wasm[0].expr)
     ok = lit == ("const", "str", "wasm") and len(attrs) == 1 and peel(attrs[0][0]) == CONTRACT_ATTR and \
         is_param(attrs[0][1], "contract") and len(bulk) == 1 and \
+        [p[0] for p in parse_event_parts(wasm[0].expr)[1]] == ["one", "bulk"] and \
         just(bulk[0], lambda x: is_param_field(x, "response", "attributes"))     # (as they are, in their order: not sorted / filtered in place)
     ctx.ob(R, key, "wasm-event-shape", ok,
            "wasm event must be Event::new(\"wasm\") + (_contract_address, contract) + the response's attributes", fn=f,
@@ -241,23 +255,35 @@ def r3(ctx, cfg):
     if not (base[0] == "bound" and base[1] == "elem"):
         # the event built anew instead of updated in place:
         #     Event::new(format!("wasm-{}", ev.ty)).add_attributes(once(mock_wasmd_attr(CONTRACT_ATTR, contract)).chain(ev.attributes))
-        lit, attrs, bulk = parse_event(e)
-        if lit is not None and not attrs and len(bulk) == 1:
+        lit, parts = parse_event_parts(e)
+        if lit is not None and parts:
             def is_elem(o):
                 o = peel(o)
                 return o[0] == "bound" and o[1] == "elem"
-            ac = pipeline.iter_contribs(P, F, g, bulk[0])
-            ok = len(ac) == 2 and ac[0].kind == "single" and not ac[0].conds and ac[1].kind == "all-of" and not ac[1].conds and not ac[1].adapters
-            d = [(c.kind, fmt(c.expr)[:60] if c.expr is not None else None) for c in ac]
+            # the attributes of the new event in build order: `.add_attribute(k, v)` is one pair, `.add_attributes(it)`
+            # whatever the iterator yields
+            ac = []
+            for part in parts:
+                if part[0] == "one":
+                    ac.append(("pair", part[1], part[2]))
+                else:
+                    ac.extend(("contrib", c) for c in pipeline.iter_contribs(P, F, g, part[1]))
+            d = [(a[0], fmt(a[1])[:40]) if a[0] == "pair" else (a[1].kind, fmt(a[1].expr)[:60] if a[1].expr is not None else None) for a in ac]
+            ok = len(ac) == 2 and ac[1][0] == "contrib" and ac[1][1].kind == "all-of" and not ac[1][1].conds and not ac[1][1].adapters
             if ok:
-                val = peel(ac[0].expr)
-                src = peel(ac[1].src)
-                ok = val[0] == "call" and val[1].endswith("mock_wasmd_attr") and peel(val[2][0]) == CONTRACT_ATTR and is_param(val[2][1], "contract") and \
-                    src[0] == "field" and src[2] == "attributes" and is_elem(src[1])
+                src = peel(ac[1][1].src)
+                ok = src[0] == "field" and src[2] == "attributes" and is_elem(src[1])
+            if ok and ac[0][0] == "pair":
+                ok = peel(ac[0][1]) == CONTRACT_ATTR and is_param(ac[0][2], "contract")
+            elif ok:
+                first = ac[0][1]
+                val = peel(first.expr) if first.expr is not None else ("?",)
+                ok = first.kind == "single" and not first.conds and \
+                    val[0] == "call" and val[1].endswith("mock_wasmd_attr") and peel(val[2][0]) == CONTRACT_ATTR and is_param(val[2][1], "contract")
             ctx.ob(R, g.key, "returns-the-event", True, "-", fn=g, sample="a new event made from the element's type and attributes")
             ctx.ob(R, g.key, "contract-address-inserted-first", ok,
                    "the new event's attributes must be (_contract_address, contract) followed by all of the element's attributes; found %s" % (d,), fn=g,
-                   sample="once(contract attribute).chain(ev.attributes)")
+                   sample=str(d))
             fp = format_parts(P, g, lit)
             okt = fp is not None
             d = "not a format!() result"
